@@ -10,6 +10,7 @@ import (
 	"io"
 	"net/http"
 	"reflect"
+	"strconv"
 	"strings"
 	"testing"
 
@@ -82,11 +83,29 @@ func TestVerif_C17_body(t *testing.T) {
 		if r.Intn(2) == 0 {
 			reqCT = ""
 		}
+		// the ROUTE a preset takes: the dedicated setter, the generic header setter (any letter
+		// case of the name), a header map
 		if clientCT != "" {
-			c.SetCommonContentType(clientCT)
+			switch (i / 5) % 3 {
+			case 0:
+				c.SetCommonContentType(clientCT)
+			case 1:
+				c.SetCommonHeader("content-type", clientCT)
+			default:
+				c.SetCommonHeaders(map[string]string{"Content-Type": clientCT})
+			}
+			s.Count("client-preset-route-" + strconv.Itoa((i/5)%3))
 		}
 		if reqCT != "" {
-			req.SetContentType(reqCT)
+			switch (i / 3) % 3 {
+			case 0:
+				req.SetContentType(reqCT)
+			case 1:
+				req.SetHeader("content-type", reqCT)
+			default:
+				req.SetHeaders(map[string]string{"Content-Type": reqCT})
+			}
+			s.Count("request-preset-route-" + strconv.Itoa((i/3)%3))
 		}
 		var rq, cl c17KV
 		var ordArgs []string
